@@ -379,7 +379,7 @@ func init() {
 	register("C20", "C20fn", 0.0005, func(t *rapid.T) C20FnCase { return C20FnCase{Server: rapid.Bool().Draw(t, "server")} }, judgeC20Fn)
 }
 
-func TestC20(t *testing.T)       { runRegistered(t, "C20") }
+func TestC20(t *testing.T) { runRegistered(t, "C20") }
 
 // FuzzC20Bytes: native coverage-guided fuzzing of the in-process handler on raw bytes (thorough tier).
 func FuzzC20Bytes(f *testing.F) {
